@@ -47,3 +47,7 @@ mod c02_mul;
 mod c03_div;
 #[cfg(kani)]
 mod c08_powlog;
+#[cfg(kani)]
+mod c04_wide_shift;
+#[cfg(kani)]
+mod wide8;
